@@ -145,9 +145,24 @@ pub fn message(rng: &mut Rng, len: usize, kind: u64) -> Vec<u8> {
 }
 
 pub fn digest_event(out: &mut dyn std::io::Write, alg: &str, n: usize, msg: &[u8], tag: &str, cfg: &str) {
+    digest_event_split(out, alg, n, msg, tag, cfg, 0)
+}
+
+/// `split` selects how the same message is fed (the digest must not depend on it): 0 = one update; k > 0 = cut after
+/// (k mod len) bytes into two updates; with the top bit set additionally an empty update in between.
+pub fn digest_event_split(out: &mut dyn std::io::Write, alg: &str, n: usize, msg: &[u8], tag: &str, cfg: &str, split: usize) {
     let r = guarded(|| {
         let mut h = make_hash(alg, n);
-        h.upd(msg);
+        if split == 0 || msg.len() < 2 {
+            h.upd(msg);
+        } else {
+            let cut = 1 + (split % (msg.len() - 1));
+            h.upd(&msg[..cut]);
+            if split & 0x8000 != 0 {
+                h.upd(&[]);
+            }
+            h.upd(&msg[cut..]);
+        }
         h.fin()
     });
     let (res, o) = match r {
@@ -188,7 +203,9 @@ pub fn drive_digests(out: &mut dyn std::io::Write, family: &str, seed: u64, thor
         for (li, &l) in lens.iter().enumerate() {
             let n = ns[(li + ai) % ns.len()];
             let m = message(&mut rng, l, (li + ai) as u64);
-            digest_event(out, alg, n, &m, "sweep", cfg);
+            // two thirds of the sweep feed the message in one call, one third in two pieces cut at a pseudo-random point
+            let split = if (li + ai) % 3 == 2 { 1 + rng.below(0xffff) as usize } else { 0 };
+            digest_event_split(out, alg, n, &m, "sweep", cfg, split);
         }
         if family == "skein" {
             // every output length against a few message shapes (empty, one byte, exactly one block, block + 1)
@@ -213,7 +230,8 @@ pub fn drive_digests(out: &mut dyn std::io::Write, family: &str, seed: u64, thor
             let l = 3 * b + rng.below((if thorough { 12 } else { 4 }) * b as u64) as usize;
             let n = ns[k % ns.len()];
             let m = rng.bytes(l);
-            digest_event(out, alg, n, &m, "long", cfg);
+            let split = if k % 2 == 1 { 1 + rng.below(0xffff) as usize } else { 0 };
+            digest_event_split(out, alg, n, &m, "long", cfg, split);
         }
     }
 }
